@@ -201,8 +201,8 @@ theorem matchCases_spec (p : Program) (used : Bool) (ty : String) (idx : Nat) (p
               · exact ih h
             · exact ih h
 
-theorem evalCall_bal (p : Program) (f : Frame) (used : Bool) (n : Nat) (base : Nat)
-    (h : f.blocks.length = base + owners f.exprs) : BalAfter base (evalCall p f used n) := by
+theorem evalCall_bal (p : Program) (f : Frame) (cid : Nat) (used : Bool) (n : Nat) (base : Nat)
+    (h : f.blocks.length = base + owners f.exprs) : BalAfter base (evalCall p f cid used n) := by
   unfold evalCall
   repeat' split
   all_goals (first
@@ -258,7 +258,7 @@ theorem dispatch_bal (p : Program) (f : Frame) (st : St) (e : Expr) (base : Nat)
   case call id u recv args =>
     unfold dispatch
     cases st <;> simp [owns] at h ⊢
-    case E => exact evalCall_bal p f _ _ base h
+    case E => exact evalCall_bal p f _ _ _ base h
     case N => bal_auto
     all_goals (
       have := foldl_pushN args (f.pushE .E (.call id u recv args))
@@ -414,6 +414,13 @@ def BalS : List Nat → List Frame → Prop
   | b :: bs, f :: fs => BalW b f ∧ BalS bs fs
   | _, _ => False
 
+theorem stopCheck_cont (a s' : State) (f : Frame) (st : St) (e : Expr)
+    (h : stopCheck a f st e = .cont s') : s' = a := by
+  unfold stopCheck at h
+  repeat' split at h
+  all_goals simp at h
+  all_goals exact h.symm
+
 theorem dispatch_ret_done (p : Program) (f : Frame) (st : St) (e : Expr)
     (hr : isReturnDone st e = true) : dispatch p f st e = .ok { f with exprs := [] } := by
   cases e <;> cases st <;> simp [isReturnDone] at hr
@@ -440,11 +447,14 @@ theorem step_bal (s s' : State) (bases : List Nat) (hb : BalS bases s.frames)
       | caller :: rest, [], hbc => simp [BalS] at hbc
       | caller :: rest, b2 :: bs2, hbc =>
         cases hv : f.values <;> simp [hv] at h
-        subst h
-        refine ⟨b2 :: bs2, ?_, Or.inr (Or.inr ⟨base, rfl, by simp⟩)⟩
-        obtain ⟨h1, h2⟩ := hbc
-        refine ⟨?_, h2⟩
-        split <;> simpa [BalW, Bal, Frame.pushV] using h1
+        split at h
+        · simp at h
+        · simp at h
+          subst h
+          refine ⟨b2 :: bs2, ?_, Or.inr (Or.inr ⟨base, rfl, by simp⟩)⟩
+          obtain ⟨h1, h2⟩ := hbc
+          refine ⟨?_, h2⟩
+          split <;> simpa [BalW, Bal, Frame.pushV] using h1
     | (st, e) :: rest =>
       simp only [he] at h
       have hbal : Bal base f := by
@@ -462,10 +472,12 @@ theorem step_bal (s s' : State) (bases : List Nat) (hb : BalS bases s.frames)
           · simp at h
           · by_cases hr : isReturnDone st e = true
             · rw [dispatch_ret_done _ _ _ _ hr] at h
-              simp at h; subst h
+              simp at h
+              have h := stopCheck_cont _ _ _ _ _ h
+              subst h
               exact ⟨base :: bs, ⟨Or.inl (by simp [setTop, hf]), by simpa [setTop, hf] using hbc⟩, Or.inl rfl⟩
             · have hd := dispatch_bal s.prog { f with exprs := rest } st e base hpre (by simpa using hr)
-              split at h <;> simp at h <;> subst h
+              split at h <;> (try (have h := stopCheck_cont _ _ _ _ _ h)) <;> (try simp at h) <;> subst h
               · rename_i f' hdd
                 rw [hdd] at hd
                 exact ⟨base :: bs, ⟨Or.inr (by simpa [setTop, hf, BalAfter] using hd), by simpa [setTop, hf] using hbc⟩, Or.inl rfl⟩
